@@ -265,21 +265,15 @@ struct Schedule
 		}
 		else
 		{
+			// weekly: one window from _start_day at _start until _end_day at _end, which may span the end of the
+			// week (_start_day > _end_day) or lie within a single day (_start_day == _end_day). The result depends on
+			// the current time only, so a missed, late or first check can never leave a stale state behind.
 			const tm result(now.get_tm());
+			const Tickval::ticks wnow(result.tm_wday * Tickval::day + now.get_ticks() % Tickval::day),
+				wstart(_start_day * Tickval::day + _start.get_ticks()),
+				wend(_end_day * Tickval::day + (_end.is_errorval() ? Tickval::day - 1 : _end.get_ticks()));
 
-			//cout >> now << ' ' >> (today + _start) << ' ' >> (today + _end) << ' ' << result.tm_wday << endl;
-
-			if (!prev)
-			{
-				if ( ((_start_day > _end_day && (result.tm_wday >= _start_day || result.tm_wday <= _end_day))
-					|| (_start_day < _end_day && result.tm_wday >= _start_day && result.tm_wday <= _end_day))
-					&& now.in_range(today + _start, today + _end))
-						active = true;
-			}
-			else if ( ((_start_day > _end_day && (result.tm_wday < _start_day && result.tm_wday > _end_day))
-					  || (_start_day < _end_day && result.tm_wday >= _end_day))
-						 && now > today + _end)
-					active = false;
+			active = wstart <= wend ? wstart <= wnow && wnow <= wend : wstart <= wnow || wnow <= wend;
 		}
 
 		return active;
